@@ -557,10 +557,10 @@ func c16Threshold(c *vrep.Ctx) {
 		}
 		ls[i] = l
 	}
-	c.R.Rule = fmt.Sprintf("MultipleMatch never returns a match below the classifier's threshold: %d pool files x query kinds {exact, lightly edited (every 9th word replaced), heavily edited (every 4th), first half, two files concatenated, unrelated} x includeHeaders x thresholds %v; every returned confidence must be >= threshold and <= 1; non-trivial = queries that returned at least one match", len(pool), ths)
+	c.R.Rule = fmt.Sprintf("MultipleMatch never returns a match below the classifier's threshold: %d pool files x query kinds {exact, lightly edited (every 9th word replaced), heavily edited (every 4th), first half, two files concatenated, unrelated, two/three licenses each stretched by a block of 15/30/45%% foreign words (several weak candidates in one input)} x includeHeaders x thresholds %v; every returned confidence must be >= threshold and <= 1; non-trivial = queries that returned at least one match", len(pool), ths)
 	body := func(r *vx.Run) {
 		fi := r.Choose(len(pool), "file")
-		kind := r.Choose(6, "kind")
+		kind := r.Choose(9, "kind")
 		hdr := r.Choose(2, "headers") == 1
 		ti := r.Choose(len(ths), "threshold")
 		text := readFile(pool[fi])
@@ -584,6 +584,24 @@ func c16Threshold(c *vrep.Ctx) {
 			text = text + "\n\n" + readFile(pool[(fi+1)%len(pool)])
 		case 5:
 			text = "completely unrelated software text with version and rights words"
+		case 6, 7, 8:
+			// weak candidates: every token of the license is still there, but a block of foreign words
+			// in the middle stretches the range so that the confidence falls below the threshold;
+			// two or three such damaged licenses in one input
+			block := func(t string, pct int) string {
+				w := strings.Fields(t)
+				var f []string
+				for i := 0; i < len(w)*pct/100; i++ {
+					f = append(f, "zqxv")
+				}
+				mid := len(w) / 2
+				return strings.Join(w[:mid], " ") + " " + strings.Join(f, " ") + " " + strings.Join(w[mid:], " ")
+			}
+			pct := []int{15, 30, 45}[kind-6]
+			text = block(text, pct) + "\n\n" + strings.Repeat("filler words between the two texts ", 10) + "\n\n" + block(readFile(pool[(fi+1)%len(pool)]), pct)
+			if kind == 8 {
+				text += "\n\n" + strings.Repeat("more filler words here ", 10) + "\n\n" + block(readFile(pool[(fi+2)%len(pool)]), 30)
+			}
 		}
 		var ms sc.Matches
 		p, d, _ := vsync.RunDefault(func() { ms = ls[ti].MultipleMatch(text, hdr) })
